@@ -213,6 +213,11 @@ def run(ctx):
             ctx.res.nontrivial.add(('m', it))
         ctx.res.count('rank%d_of_N%d' % (t[1], n))
         ctx.res.count('undetermined' if any(flags) else 'all_determined')
+    # LARGE registers: byte, word and cache-line boundaries of every packed or vectorised representation (8, 9, 16, 17, 33, 64, 65 qubits); model correspondence only
+    for n in gen.BIG:
+        t = gen.rtableau(rng, ctx.model, n)
+        do(ctx, 'measure', [t, gen.commuting_obs(rng, ctx.model, n, rng.randint(1, 4)), rng.randrange(10 ** 6)], nontrivial=('big', n))
+        do(ctx, 'measure', [t, [[t[0][rng.randrange(n)][0], rng.choice([0, 2])]], rng.randrange(10 ** 6)], nontrivial=('bigs', n))
     # argument forms: a StabilizerState argument of every rank against a measured state of every rank
     for it in range(int(80 * B)):
         n = rng.randint(1, 5)
